@@ -41,16 +41,42 @@ theorem validAnoms_lo_le_hi (m M : Nat) (lo : Nat) (l : List (Nat × Nat)) (hi :
 
 /-! ### The invariant holds after every iteration -/
 
-theorem cinv_all (PS : Nat → Nat → α) (PP : Nat → α) (K : α) (m M delay n : Nat)
+/-- a selector for the starts is sound when it returns a member that maximises -/
+def SoundPickMax (pick : (Nat → α) → List Nat → Nat) : Prop :=
+  (∀ (f : Nat → α) (l : List Nat), l ≠ [] → pick f l ∈ l) ∧
+  (∀ (f : Nat → α) (l : List Nat), ∀ x ∈ l, f x ≤ f (pick f l))
+
+/-- a pruning test is sound when it only fires for `candidate + slack ≤ optimum` -/
+def SoundPruneC (pr : α → α → Bool) : Prop := ∀ x v, pr x v = true → x ≤ v
+
+theorem soundPickMax_argmaxL : SoundPickMax (α := α) argmaxL := ⟨argmaxL_mem, argmaxL_ge⟩
+theorem soundPickMax_argmaxLast : SoundPickMax (α := α) argmaxLast := ⟨argmaxLast_mem, argmaxLast_ge⟩
+theorem soundPruneC_lt : SoundPruneC (α := α) prLt := by
+  intro x v h; simp only [prLt, decide_eq_true_eq] at h; exact le_of_lt h
+/-- non-strict pruning and no pruning are sound as well -/
+theorem soundPruneC_le : SoundPruneC (α := α) (fun x v => decide (x ≤ v)) := by
+  intro x v h; simpa using h
+theorem soundPruneC_never : SoundPruneC (α := α) (fun _ _ => false) := by
+  intro x v h; cases h
+
+theorem cinv_allG (pick : (Nat → α) → List Nat → Nat) (pr : α → α → Bool)
+    (hpick : SoundPickMax pick) (hpr : SoundPruneC pr)
+    (PS : Nat → Nat → α) (PP : Nat → α) (K : α) (m M delay n : Nat)
     (hm : 1 ≤ m) (hmM : m ≤ M) (hd : m ≤ delay + 1)
     (H : ∀ s e0 T, s + m ≤ e0 → e0 + m ≤ T → T ≤ s + M → T ≤ n → PS s T ≤ PS s e0 + PS e0 T + K) :
-    ∀ t, t ≤ n → CInv PS PP K m M delay t (capaIter PS PP K m M delay t) := by
+    ∀ t, t ≤ n → CInv PS PP K m M delay t (capaIterG pick pr PS PP K m M delay t) := by
   intro t
   induction t with
   | zero => intro _; exact cinv_init PS PP K m M delay hm
   | succ t ih =>
     intro ht
-    exact cinv_step PS PP K m M delay t n _ hm hmM hd ht H (ih (by omega))
+    exact cinv_step pick pr hpick.1 hpick.2 hpr PS PP K m M delay t n _ hm hmM hd ht H (ih (by omega))
+
+theorem cinv_all (PS : Nat → Nat → α) (PP : Nat → α) (K : α) (m M delay n : Nat)
+    (hm : 1 ≤ m) (hmM : m ≤ M) (hd : m ≤ delay + 1)
+    (H : ∀ s e0 T, s + m ≤ e0 → e0 + m ≤ T → T ≤ s + M → T ≤ n → PS s T ≤ PS s e0 + PS e0 T + K) :
+    ∀ t, t ≤ n → CInv PS PP K m M delay t (capaIter PS PP K m M delay t) :=
+  cinv_allG argmaxL prLt soundPickMax_argmaxL soundPruneC_lt PS PP K m M delay n hm hmM hd H
 
 theorem opt_mono (PS : Nat → Nat → α) (PP : Nat → α) (K : α) (m M delay t : Nat) (st : CapaSt α)
     (inv : CInv PS PP K m M delay t st) : ∀ a b, a ≤ b → b ≤ t → st.opt a ≤ st.opt b := by
